@@ -112,6 +112,8 @@ def parseOp (st : St) : Nat → Json → R Op
   | "setAttrImm" => pure (.setAttrImm (← str j "x") (← parseImm (← obj j "v")))
   | "append" => pure (.append (← strs (← obj j "f")) (← str j "s"))
   | "popLast" => pure (.popLast (← strs (← obj j "f")))
+  | "dictDel" => pure (.dictDel (← strs (← obj j "f")) (← str j "k"))
+  | "useName" => pure .useName
   | "dictSet" => pure (.dictSet (← strs (← obj j "f")) (← str j "k") (← str j "v"))
   | "traceT" =>
     let src ← match (← str j "src") with
